@@ -34,7 +34,7 @@ def qr_(a, p):
 def nt_axioms():
     a, m, e = z3.Int("nt!a"), z3.Int("nt!m"), z3.Int("nt!e")
     P = POWMOD
-    M = sym.MOD
+    M = lambda t, mm: sym.MOD(sym.canon_mod_arg(t, mm), mm)      # same canonical form as the engine builds
     return [
         # gcd facts used by inverse_mod
         z3.ForAll([m], GCD(0, m) == z3.If(m >= 0, m, -m), patterns=[GCD(0, m)], qid="gcd_zero"),
